@@ -65,6 +65,68 @@ def sweep(tier):
                    'rsd': True, 'origin': None, 'enable_ranks': False, 'want_AB': False, 'want_shear': False, 'z': 0.5,
                    'Nthread': T, 'sched': {'policy': 'static', 'strategy': 'serial', 'seed': Hn * 16 + T},
                    'search': {'a': [], 'b': [], 'nb': 0}, 'compiled': False, 'sweep': True}
+    for T in CS_THREADS:
+        yield {'csweep': {'T': T, 'sizes': _csweep_sizes(T, tier)}}
+
+
+CS_THREADS = (2, 3, 4, 8, 16)
+
+
+def _csweep_sizes(T, tier):
+    import random
+    r = random.Random(100 + T)
+    base = 4096 * T
+    ns = [base - 1, base, base + 1, base + 37, 2 * base + 5, base + 63, base + 65]
+    ns += [r.randrange(base, 3 * base) for _ in range(6 if tier == 'thorough' else 3)]
+    return [(n, m) for n, m in zip(ns, ns[2:] + ns[:2])]
+
+
+def _csweep(case, out):
+    """Compiled kernels on real threads for table sizes the interpreted simulation cannot reach (thousands of rows per
+    thread, where block-size dependent fast paths live): Nthread=T must reproduce Nthread=1 bit for bit."""
+    from abacusnbody.hod import GRAND_HOD as RG
+    T = case['csweep']['T']
+    lrg = {'logM_cut': 12.8, 'logM1': 13.6, 'sigma': 0.5, 'alpha': 1.0, 'kappa': 0.5, 'alpha_c': 0.2, 'alpha_s': 0.9,
+           's': 0.0, 's_v': 0.0, 's_p': 0.0, 's_r': 0.0, 'Acent': 0.0, 'Asat': 0.0, 'Bcent': 0.0, 'Bsat': 0.0, 'ic': 1.0}
+    elg = dict(lrg, logM_cut=12.2, logM1=13.2, p_max=0.5, Q=100.0, gamma=4.0, A_s=1.0, Ccent=0.0, Csat=0.0)
+    site = 'gen_gal_cat[compiled]'
+    for k, (Hn, Pn) in enumerate(case['csweep']['sizes']):
+        g = np.random.default_rng(1000 * T + k)
+        L = 500.0
+        logm = g.uniform(12.0, 14.6, Hn)
+        halo = {'hpos': g.uniform(-L / 2, L / 2, (Hn, 3)), 'hvel': g.uniform(-900, 900, (Hn, 3)), 'hmass': 10 ** logm,
+                'hid': 1000 + 3 * np.arange(Hn, dtype=np.int64), 'hmultis': g.choice([1.0, 1.0, 0.5, 2.0], Hn),
+                'hrandoms': np.where(g.random(Hn) < 0.3, 0.0, g.random(Hn)), 'hveldev': g.normal(0, 150, (Hn, 3)),
+                'hsigma3d': np.ones(Hn), 'hc': np.ones(Hn), 'hrvir': np.ones(Hn)}
+        hidx = np.sort(g.integers(0, Hn, Pn))
+        part = {'ppos': g.uniform(-L / 2, L / 2, (Pn, 3)), 'pvel': g.uniform(-1500, 1500, (Pn, 3)), 'phvel': halo['hvel'][hidx],
+                'phmass': halo['hmass'][hidx], 'phid': halo['hid'][hidx], 'pweights': g.choice([1.0, 0.5, 3.0], Pn),
+                'prandoms': np.where(g.random(Pn) < 0.3, 0.0, g.random(Pn) ** 3), 'pinds': hidx}
+        for name in ('pranks', 'pranksv', 'pranksp', 'pranksr', 'pranksc'):
+            part[name] = np.ones(Pn)
+        params = {'z': 0.5, 'h': 0.67, 'Lbox': L, 'Mpart': 2.1e9, 'velz2kms': 100.0, 'origin': None, 'chunk': -1, 'numslabs': 1}
+        tracers = {'LRG': dict(lrg)} if k % 3 else {'LRG': dict(lrg), 'ELG': dict(elg)}
+        res = {}
+        for nt in (1, T):
+            try:
+                r = RG.gen_gal_cat({a: b.copy() for a, b in halo.items()}, {a: b.copy() for a, b in part.items()},
+                                   {t: dict(v) for t, v in tracers.items()}, dict(params), Nthread=nt, enable_ranks=False,
+                                   rsd=bool(k % 2), nfw=False, write_to_disk=False, verbose=False)
+                res[nt] = HR.flatten({t: dict(v) for t, v in r.items()})
+            except Exception as e:
+                violation(out, 'raises:' + type(e).__name__, site, {'Nthread': nt, 'hosts': Hn, 'particles': Pn, 'error': repr(e)[:300]})
+                return out
+        d = HR.same_bits(res[1], res[T])
+        if d:
+            violation(out, 'depends-on-thread-count', site, {'Nthread': T, 'hosts': Hn, 'particles': Pn, 'diff': d})
+            return out
+        ngal = sum(len(v['x']) for v in res[1].values())
+        out['events'].append(['csweep', T, Hn, Pn, ngal])
+    bump(out['probes'], 'compiled-large-table-sweep')
+    bump(out['faults'], 'real-threads=%d' % T, len(case['csweep']['sizes']))
+    out['steps'] = 2 * len(case['csweep']['sizes'])
+    out['nontrivial'] = ['csweep', T]
+    return out
 
 
 def warmup():
@@ -78,6 +140,8 @@ def run(case):
     from e1_threads import harness as H
     from e1_threads.sched import SIM
     out = new_outcome()
+    if 'csweep' in case:
+        return _csweep(case, out)
     c = HR.prepare(case)
     s = case['sched']
     T = case['Nthread']
@@ -171,6 +235,12 @@ def _compiled(case, c, out):
 
 
 def shrink(case):
+    if 'csweep' in case:
+        cs = case['csweep']
+        if len(cs['sizes']) > 1:
+            for i in range(len(cs['sizes'])):
+                yield {'csweep': dict(cs, sizes=[cs['sizes'][i]])}
+        return
     c = dict(case)
     hs, ps = case['halos'], case['parts']
     for i in range(len(ps)):
